@@ -25,7 +25,7 @@ EXTENDS CpcRegistry, Json
 
 Trace == ndJsonDeserialize("trace.ndjson")
 
-TraceDynAddrs == [i \in 1..16 |-> "dyn" \o ToString(i - 1)]
+TraceDynAddrs == [i \in 1..160 |-> "dyn" \o ToString(i - 1)]
 KnownVer == 1     \* the pinned tree knows protocol version 1 only
 
 VARIABLES l, stack, G, err, cls
@@ -131,10 +131,20 @@ FullProbeBad(g, L, p) ==
      \/ x[1] \notin DOMAIN p
      \/ (IF Skipped(x[2], g.modes[x[3]]) THEN p[x[1]][x[2]][x[3]] # "skipped"
          ELSE p[x[1]][x[2]][x[3]] \notin Cells(g, L, x[1], InputOf(p[x[1]], x[2], x[3]), g.modes[x[3]], ViaOf(p[x[1]], x[2], x[3])))}
-LiteProbeBad(g, L, p) == {a \in ToSet(g.cands) : a \notin DOMAIN p \/ p[a] \notin Cells(g, L, a, "in1", "eth_call", "direct")}
+(* the lite probe covers every candidate and every registered contract (the "many contracts" scenario registers far more
+   contracts than there are candidates) *)
+LiteProbeBad(g, L, p) == {a \in ToSet(g.cands) \cup DOMAIN L.meta : a \notin DOMAIN p \/ p[a] \notin Cells(g, L, a, "in1", "eth_call", "direct")}
 (* lines without the full matrix: the top-level empty-calldata probe of every registered contract in every mode *)
-Reg0Bad(g, L, r0) ==
-  {x \in (DOMAIN L.meta) \X (1..Len(g.modes)) : x[1] \notin DOMAIN r0 \/ r0[x[1]][x[2]] \notin Cells(g, L, x[1], "e", g.modes[x[2]], "direct")}
+(* e.sel, when present, names the addresses probed in every mode instead (first / 100th / 101st / last registered contract
+   by deployment and by store order, the next dynamic address, a fresh address), with name() as well (e.sel1) *)
+AllModeTargets(e, L) == IF "sel" \in DOMAIN e THEN ToSet(e.sel) ELSE DOMAIN L.meta
+Reg0Bad(g, L, e) ==
+  {x \in AllModeTargets(e, L) \X (1..Len(g.modes)) :
+     \/ x[1] \notin DOMAIN e.reg0 \/ e.reg0[x[1]][x[2]] \notin Cells(g, L, x[1], "e", g.modes[x[2]], "direct")}
+Sel1Bad(g, L, e) ==
+  IF "sel" \notin DOMAIN e THEN {}
+  ELSE {x \in ToSet(e.sel) \X (1..Len(g.modes)) :
+          \/ x[1] \notin DOMAIN e.sel1 \/ e.sel1[x[1]][x[2]] \notin Cells(g, L, x[1], "in1", g.modes[x[2]], "direct")}
 
 (* value: the wei an address gains during the delivered probes = the value probes that reach it and succeed there
    (direct e1 in deliver mode; the rotating probe when it forwards value 1 through the CALL proxy); a dispatched-and-reverted or
@@ -165,16 +175,19 @@ ProbeLaw(g, e, L) ==
          IF bb = {} THEN OK ELSE <<"Exposure", Status(g, L, CHOOSE x \in bb : TRUE) \o "-address-balance-after-value-probes">>
   ELSE
     LET bad == LiteProbeBad(g, L, e.probe)
-        bad0 == Reg0Bad(g, L, e.reg0) IN
+        bad0 == Reg0Bad(g, L, e)
+        bad1 == Sel1Bad(g, L, e) IN
     IF bad # {} THEN <<"Exposure", Status(g, L, CHOOSE x \in bad : TRUE) \o "-address-in-mode-eth_call">>
     ELSE IF bad0 # {} THEN LET b == CHOOSE x \in bad0 : TRUE IN <<"Exposure", Status(g, L, b[1]) \o "-address-empty-calldata-in-mode-" \o g.modes[b[2]]>>
+    ELSE IF bad1 # {} THEN LET b == CHOOSE x \in bad1 : TRUE IN <<"Exposure", Status(g, L, b[1]) \o "-address-in-mode-" \o g.modes[b[2]]>>
     ELSE OK
 
 ProbeCounts(g, e, L, f) ==
   IF "noprobe" \in DOMAIN e THEN f
   ELSE LET n == IF e.full THEN 28 ELSE 1
-           cnt(st) == n * Cardinality({a \in ToSet(g.cands) : Status(g, L, a) = st})
-           nreg == Cardinality(DOMAIN L.meta)
+           probed == IF e.full THEN ToSet(g.cands) ELSE ToSet(g.cands) \cup DOMAIN L.meta
+           cnt(st) == n * Cardinality({a \in probed : Status(g, L, a) = st})
+           nreg == IF "sel" \in DOMAIN e THEN Cardinality(ToSet(e.sel) \cap DOMAIN L.meta) ELSE Cardinality(DOMAIN L.meta)
            f1 == BumpN(BumpN(BumpN(BumpN(f, "probe.runs", cnt("runs")), "probe.refused", cnt("refused")), "probe.absent", cnt("absent")), "probe.std", cnt("std"))
        IN BumpN(f1, "probe.registered-toplevel-empty-calldata", (IF e.full THEN 9 ELSE 6) * nreg)   \* e0 (6 modes) [+ e1 (3 modes)] per registered contract
 
@@ -186,6 +199,11 @@ Fail2(c) == <<l, c[1], c[2]>>
 Settle(c) ==
   IF c = OK THEN UNCHANGED err
   ELSE err' = Fail2(c) /\ PrintT(<<"LAWBROKEN", l, c[1], c[2]>>)
+
+(* first broken registry law and first broken exposure law of one line: both are printed *)
+Settle2(c, pc) ==
+  IF c = OK THEN Settle(pc)
+  ELSE Settle(c) /\ (pc = OK \/ PrintT(<<"LAWBROKEN-ALSO", l, pc[1], pc[2]>>))
 
 DoGenesis ==
   /\ Ev.ev = "Genesis"
@@ -204,6 +222,22 @@ DoGenesis ==
 
 Authority(op) == IF op.route = "gov" THEN Gov ELSE "not-gov"
 
+(* several deploy transactions of one sender in one block: the single-deployment laws, folded over the block *)
+RECURSIVE BatchCheck(_, _, _, _, _, _)
+BatchCheck(R, sender, items, oks, addrs, sp) ==
+  IF items = <<>> THEN [c |-> OK, R |-> R]
+  ELSE LET it == items[1]
+           one == IF oks[1] THEN
+                    [c |-> First(<<
+                             Law(sender \in R.wl, "Whitelist", "erc20-deployed-by-non-whitelisted-sender"),
+                             Law(it.denom \notin DOMAIN R.idx /\ \A a \in Erc20s(R) : R.meta[a].denom # it.denom, "Erc20", "second-contract-for-denom"),
+                             Law(it.denom \in DOMAIN sp /\ sp[it.denom], "Erc20", "deployed-for-denom-without-supply"),
+                             Law(addrs[1] = Dyn(R.nonce), "Addr", "not-the-next-dynamic-address"),
+                             Law(addrs[1] \notin DOMAIN R.meta, "Addr", "UniqueAddr-address-reused")>>),
+                     R |-> AfterDeployErc20(R, it.denom, it.name, it.symbol, it.decimals)]
+                  ELSE [c |-> OK, R |-> R]
+       IN IF one.c # OK THEN one ELSE BatchCheck(one.R, sender, Tail(items), Tail(oks), Tail(addrs), sp)
+
 OpCheck(R, e) ==
   LET op == e.op  res == e.res  sp == e.reg.supplyPos IN
   CASE op.k = "DeployErc20" ->
@@ -216,6 +250,7 @@ OpCheck(R, e) ==
                     Law(res.addr \notin DOMAIN R.meta, "Addr", "UniqueAddr-address-reused")>>),
             R |-> AfterDeployErc20(R, op.denom, op.name, op.symbol, op.decimals)]
          ELSE [c |-> OK, R |-> R]
+    [] op.k = "DeployErc20Batch" -> BatchCheck(R, op.sender, op.items, res.oks, res.addrs, sp)
     [] op.k = "DeployStaking" ->
          IF res.ok THEN
            [c |-> First(<<
@@ -254,12 +289,12 @@ DoOp ==
                 Law(TypeStableStep(R, L), "Type", "TypeStable"),
                 Law(Ev.op.k = "RawVersion" \/ VersionMonotoneStep(R, L), "Version", "VersionMonotone"),
                 Law(NonceMonotoneStep(R, L), "Nonce", "decreased"),
-                Law(Ev.res.ok \/ L = R, "Rejected", "rejected-operation-changed-the-registry"),
+                Law(Ev.res.ok \/ Ev.op.k = "DeployErc20Batch" \/ L = R, "Rejected", "rejected-operation-changed-the-registry"),
                 ProjectionLaws(Ev.reg),
-                StateDiff(L, oc.R),
-                ProbeLaw(G, Ev, L)
+                StateDiff(L, oc.R)
               >>)
-     IN /\ Settle(c)
+         pc == ProbeLaw(G, Ev, L)     \* the exposure laws are judged on their own: reported next to a broken registry law
+     IN /\ Settle2(c, pc)
         /\ stack' = Append(SubSeq(stack, 1, Ev.d + 1), L)
         /\ cls' = Bump(ProbeCounts(G, Ev, L, cls), "op." \o Ev.op.k \o (IF Ev.res.ok THEN ".accepted" ELSE ".rejected"))
 
